@@ -693,3 +693,162 @@ theorem auto_eq_run : ∀ (f s : Nat) (en : Option Nat) (items : List (Item σ))
             simp
 
 end Genshi.Match
+
+namespace Genshi.Match
+open Genshi
+variable {σ : Type}
+
+/-! ### the eager filter does not read the `buffer` hint -/
+
+def bufOn (t : MT σ) : MT σ := { t with buffered := true }
+
+theorem test_bufOn (t : MT σ) (e : Event) (u : Bool) : (bufOn t).test e u = (bufOn (t.test e u).1, (t.test e u).2) := by
+  unfold MT.test bufOn
+  by_cases h : t.retired = true <;> simp [h]
+
+theorem scanP_bufOn (e : Event) : ∀ (m : List (MT σ)) (w : Nat → Bool),
+    scanP w e (m.map bufOn) = ((scanP w e m).1.map bufOn, (scanP w e m).2) := by
+  intro m
+  induction m with
+  | nil => intro w; rfl
+  | cons t ts ih =>
+    intro w
+    simp only [List.map_cons]
+    unfold scanP
+    by_cases hw : w 0 = true
+    · simp only [hw, ↓reduceIte, test_bufOn]
+      by_cases hf : (t.test e false).2 = true
+      · simp [hf, bufOn]
+      · simp [hf, ih]
+    · simp [hw, ih]
+
+theorem mapW_bufOn (e : Event) (u : Bool) : ∀ (m : List (MT σ)) (w : Nat → Bool),
+    mapW w (fun t => (t.test e u).1) (m.map bufOn) = (mapW w (fun t => (t.test e u).1) m).map bufOn := by
+  intro m
+  induction m with
+  | nil => intro w; rfl
+  | cons t ts ih =>
+    intro w
+    simp only [List.map_cons, mapW, ih]
+    congr 1
+    split
+    · rw [test_bufOn]
+    · rfl
+
+theorem retireAt_bufOn : ∀ (m : List (MT σ)) (idx : Nat), retireAt idx (m.map bufOn) = (retireAt idx m).map bufOn := by
+  intro m
+  induction m with
+  | nil => intro idx; cases idx <;> rfl
+  | cons t ts ih =>
+    intro idx
+    cases idx with
+    | zero => simp [retireAt, bufOn, MT.retire]
+    | succ idx => simp [retireAt, ih]
+
+theorem fired_bufOn (t : MT σ) (idx : Nat) (m : List (MT σ)) :
+    fired (bufOn t) idx (m.map bufOn) = (fired t idx m).map bufOn := by
+  unfold fired
+  have : (bufOn t).once = t.once := rfl
+  rw [this]
+  split
+  · exact retireAt_bufOn m idx
+  · rfl
+
+/-- the eager filter on the list with every hint switched to "buffered" is the eager filter -/
+theorem run_bufOn : ∀ (f s : Nat) (en : Option Nat) (items : List (Item σ)) (mts : List (MT σ)), NoReg items →
+    run f s en items (mts.map bufOn) = (run f s en items mts).map fun r => (r.1.map bufOn, r.2) := by
+  intro f
+  induction f with
+  | zero => intro s en items mts _; simp [run]
+  | succ f ih =>
+    intro s en items mts hnr
+    cases items with
+    | nil => simp [run]
+    | cons it rest =>
+      cases it with
+      | reg t => exact absurd (by simp) (hnr t)
+      | ev e =>
+        have hnr' : NoReg rest := fun x hx => hnr x (by simp [hx])
+        simp only [run]
+        by_cases hS : isStart e = true
+        · simp only [hS, ↓reduceIte]
+          rw [scan_eq_scanP, scan_eq_scanP, scanP_bufOn]
+          generalize hsc : scanP (fun p => inWindow s en (0 + p)) e mts = sc
+          obtain ⟨m1, hit⟩ := sc
+          cases hit with
+          | none =>
+            simp only [Option.map_none]
+            rw [ih s en rest m1 hnr']
+            cases run f s en rest m1 with
+            | none => simp [emit]
+            | some q => simp [emit]
+          | some idx =>
+            simp only [Option.map_some, Nat.zero_add, List.getElem?_map]
+            cases ht : m1[idx]? with
+            | none => simp
+            | some t =>
+              simp only [Option.map_some]
+              have hpe : preEnd (bufOn t) idx = preEnd t idx := rfl
+              have hbd : (bufOn t).body = t.body := rfl
+              rw [fired_bufOn, hpe, hbd]
+              cases hst : strip 1 rest with
+              | none => simp
+              | some q =>
+                obtain ⟨inner, tail, rest'⟩ := q
+                simp only
+                obtain ⟨hrest, _, _⟩ := strip_spec rest 0 inner tail rest' hst
+                have hnin : NoReg inner := fun x hx => hnr' x (by rw [hrest]; simp [hx])
+                have hnre : NoReg rest' := fun x hx => hnr' x (by rw [hrest]; simp [hx])
+                rw [ih s (some (preEnd t idx)) inner _ hnin]
+                cases run f s (some (preEnd t idx)) inner (fired t idx m1) with
+                | none => simp
+                | some q3 =>
+                  obtain ⟨m3, innerOut⟩ := q3
+                  simp only [Option.map_some]
+                  rw [ih (idx + 1) en _ m3 (noReg_evItems _)]
+                  cases run f (idx + 1) en (evItems (instantiate t.body (e :: innerOut ++ [tail]))) m3 with
+                  | none => simp
+                  | some q4 =>
+                    obtain ⟨m4, out⟩ := q4
+                    simp only [Option.map_some]
+                    rw [updRange_eq_mapW, mapW_bufOn, ← updRange_eq_mapW, ih s en rest' _ hnre]
+                    cases run f s en rest' (updRange tail s (idx + 1) 0 m4) with
+                    | none => simp
+                    | some p => simp
+        · simp only [hS, Bool.false_eq_true, ↓reduceIte]
+          by_cases hE : isEnd e = true
+          · simp only [hE, ↓reduceIte]
+            rw [scanEnd_eq_mapW, mapW_bufOn, ← scanEnd_eq_mapW, ih s en rest _ hnr']
+            cases run f s en rest (scanEnd e s en 0 mts) with
+            | none => simp [emit]
+            | some q => simp [emit]
+          · simp only [hE, Bool.false_eq_true, ↓reduceIte]
+            rw [ih s en rest mts hnr']
+            cases run f s en rest mts with
+            | none => simp [emit]
+            | some q => simp [emit]
+
+/-- `runL` on a registration-free item list is the fold of `feed` -/
+theorem runL_noReg (F : Nat) : ∀ (items : List (Item σ)) (a : Auto) (m : List (MT σ)), NoReg items →
+    runL F a items m = foldFeed (feed F 0 none) a (evs items) m := by
+  intro items
+  induction items with
+  | nil => intro a m _; rfl
+  | cons it rest ih =>
+    intro a m hnr
+    cases it with
+    | reg t => exact absurd (by simp) (hnr t)
+    | ev e =>
+      have hnr' : NoReg rest := fun x hx => hnr x (by simp [hx])
+      simp only [runL, evs_ev, foldFeed]
+      cases feed F 0 none a e m with
+      | none => rfl
+      | some q =>
+        obtain ⟨a1, m1, o1⟩ := q
+        simp only
+        rw [ih a1 m1 hnr']
+        cases foldFeed (feed F 0 none) a1 (evs rest) m1 with
+        | none => rfl
+        | some q2 => rfl
+
+end Genshi.Match
